@@ -33,7 +33,7 @@ def lit(n):
 
 def full(e):
     """wrap every operand in explicit parentheses"""
-    if e[0] == "lit":
+    if e[0] in ("lit", "var"):
         return e
     if e[0] == "bin":
         return ("bin", e[1], ("paren", full(e[2])), ("paren", full(e[3])))
@@ -45,7 +45,7 @@ def full(e):
 
 
 def rnd_paren(e, r):
-    if e[0] == "lit":
+    if e[0] in ("lit", "var"):
         out = e
     elif e[0] == "bin":
         out = ("bin", e[1], rnd_paren(e[2], r), rnd_paren(e[3], r))
@@ -61,6 +61,8 @@ def rnd_paren(e, r):
 def sx(e):
     if e[0] == "lit":
         return lit(e[1])
+    if e[0] == "var":
+        return "(var %s)" % e[1]
     if e[0] == "paren":
         return "(paren %s)" % sx(e[1])
     if e[0] == "bin":
@@ -89,9 +91,38 @@ def shapes3(o1, o2, o3, a, b, c, d):
     yield ("bin", o1, A, ("bin", o2, B, ("bin", o3, C, D)))
 
 
-def program(trees, seed):
+VAR_NAMES = ["N", "LIMIT", "MAX_SIZE", "Count", "k", "idx", "T", "Box", "Vec", "x1", "Int", "Value", "M", "node", "Size", "B"]
+
+
+def with_variables(trees, seed):
+    """the same trees with every literal operand replaced by a variable holding that value; the names are those a program would
+    use: lower case, Capitalised, ALL_CAPS, one-letter and type-like names (an operand in redundant parentheses must never
+    be taken for a cast or for the start of a generic type)"""
+    r = Rng(seed, 207)
+    decls, names = [], {}
+
+    def conv(e):
+        if e[0] == "lit":
+            key = e[1]
+            if key not in names:
+                if len(names) >= len(VAR_NAMES):
+                    return e
+                names[key] = VAR_NAMES[(len(names) * 7 + r.below(3)) % len(VAR_NAMES)]
+                while list(names.values()).count(names[key]) > 1:
+                    names[key] = VAR_NAMES[r.below(len(VAR_NAMES))]
+                decls.append("(decl - long %s %s)" % (names[key], lit(key)))
+            return ("var", names[key])
+        return (e[0],) + tuple(conv(x) if isinstance(x, tuple) else x for x in e[1:])
+    out = [conv(t) for t in trees]
+    return decls, out
+
+
+def program(trees, seed, variables=False):
     r = Rng(seed, 202)
     body = []
+    if variables:
+        decls, trees = with_variables(trees, seed)
+        body += decls
     for k, e in enumerate(trees):
         body.append("(print (s \"%d\") (e %s) (e %s) (e %s))" % (k, sx(e), sx(full(e)), sx(rnd_paren(e, r))))
     return "(prog (structs) (globals) (funcs (func main int (params) (%s (print (s \"END\")) (ret (lit 0))))))" % " ".join(body)
@@ -134,6 +165,7 @@ def pair_suite(seed):
             trees = fix_operands(trees)
             if trees:
                 yield program(trees, seed)
+                yield program(trees, seed, variables=True)
 
 
 def triple_suite(seed, ops):
@@ -163,7 +195,9 @@ def random_suite(seed, n):
             return ("un", r.choice(["neg", "not", "bnot"]), gen(d - 1))
         return ("tern", gen(d - 1), gen(d - 1), gen(d - 1))
     for _ in range(n):
-        yield program([gen(r.range(2, 5)) for _ in range(12)], seed)
+        ts = [gen(r.range(2, 5)) for _ in range(12)]
+        yield program(ts, seed)
+        yield program(ts, seed, variables=True)
 
 
 CB_OP = {"add": "+", "sub": "-", "mul": "*", "div": "/", "mod": "%", "shl": "<<", "shr": ">>", "band": "&", "bor": "|", "bxor": "^",
@@ -226,7 +260,9 @@ def main(a):
              "under full parentheses and under random redundant parentheses; all three must equal the reference value. "
              "operator-pairs: all 18x18 ordered binary pairs in both shapes x 7 operand triples, plus unary/ternary "
              "nestings (exhaustive); operator-triples: all 5 shapes over a 9-operator subset (all 18 in thorough); "
-             "random trees to depth 5; assignment-level: a = b = x op y for all 18 operators (plain, fully parenthesised, after a "
+             "random trees to depth 5; operator pairs and random trees are run twice, with literal operands and with the literals "
+             "replaced by variables named as programs name them (lower case, Capitalised, ALL_CAPS, type-like: N, LIMIT, Box, T ...); "
+             "assignment-level: a = b = x op y for all 18 operators (plain, fully parenthesised, after a "
              "compound assignment), three-fold chains, assignment vs ?:, assignment used as operand / condition / argument, "
              "with values computed by the harness. non-trivial = distinct program",
         extra={"exhaustive": True, "exhaustive_note": "operator pairs are enumerated completely; triples over the stated "
